@@ -1,0 +1,88 @@
+//go:build verif
+
+package shovel
+
+import (
+	"context"
+	"sync"
+	"sync/atomic"
+
+	"github.com/indexsupply/shovel/shovel/config"
+	"github.com/jackc/pgx/v5/pgxpool"
+)
+
+// Observation hooks for the runtime-monitoring harness in /verif.
+// Compiled only with -tags verif; verif_off.go holds the empty twins.
+
+// VerifLoadTasks exposes loadTasks so that a harness can step tasks that are
+// wired exactly as Manager.Run wires them.
+func VerifLoadTasks(ctx context.Context, pgp *pgxpool.Pool, c config.Root) ([]*Task, error) {
+	return loadTasks(ctx, pgp, c)
+}
+
+// VerifTaskInfo is a read-only description of a task.
+type VerifTaskInfo struct {
+	SrcName     string
+	IGName      string
+	ChainID     uint64
+	Start, Stop uint64
+	BatchSize   int
+	Concurrency int
+	Filter      string
+	Source      Source
+}
+
+func (t *Task) VerifInfo() VerifTaskInfo {
+	return VerifTaskInfo{
+		SrcName:     t.srcName,
+		IGName:      t.destConfig.Name,
+		ChainID:     t.srcChainID,
+		Start:       t.start,
+		Stop:        t.stop,
+		BatchSize:   t.batchSize,
+		Concurrency: t.concurrency,
+		Filter:      t.filter.String(),
+		Source:      t.src,
+	}
+}
+
+// VerifEvent is one entry of the hook event log.
+type VerifEvent struct {
+	Seq  uint64
+	Name string
+	Task *Task
+	Mgr  *Manager
+}
+
+var (
+	verifSeq  uint64
+	verifMu   sync.Mutex
+	verifSink func(VerifEvent)
+	verifPt   func(name string, t *Task)
+)
+
+// VerifSetSink installs the event sink and the delay/callback point handler.
+func VerifSetSink(sink func(VerifEvent), point func(name string, t *Task)) {
+	verifMu.Lock()
+	verifSink, verifPt = sink, point
+	verifMu.Unlock()
+}
+
+func verifEmit(name string, tm *Manager, t *Task) {
+	verifMu.Lock()
+	sink := verifSink
+	verifMu.Unlock()
+	if sink == nil {
+		return
+	}
+	sink(VerifEvent{Seq: atomic.AddUint64(&verifSeq, 1), Name: name, Task: t, Mgr: tm})
+}
+
+func verifPoint(name string, t *Task) {
+	verifMu.Lock()
+	pt := verifPt
+	verifMu.Unlock()
+	if pt != nil {
+		pt(name, t)
+	}
+}
